@@ -22,6 +22,8 @@
 #include <stdlib.h>
 #include <string.h>
 #include <wchar.h>
+#include <signal.h>
+#include <unistd.h>
 
 #undef realloc
 extern void * realloc(void *, size_t);
@@ -249,8 +251,14 @@ static void ev_xtor(int kind, size_t slot, int known)
 {
     ev_alloc_drain();
     if (!known) {
+        static int stray;
         run_flush();
         ev_app(kind == 'C' ? " C?" : " D?");
+        if (++stray > 64) {
+            /* a constructor/destructor loop running away over memory the
+             * vector does not own: reported like a script that does not end */
+            raise(SIGALRM);
+        }
         return;
     }
     if (run_kind == kind) {
@@ -416,6 +424,7 @@ static void reset(void)
 {
     int i;
     in_script = 1;
+    alarm(20);      /* watchdog: common.c reports SIGALRM as "STOP hang" */
     h_alloc_reset();
     uplan[0] = 0;
     upos = 0;
@@ -471,19 +480,20 @@ static void free_buf(void * p)
     h_alloc_arm(1);
 }
 
-/* a private copy of the NUL-terminated characters cstl_STRING_str points at */
+/* a private copy of the characters cstl_STRING_str points at: all size
+ * characters (embedded NULs included) and the terminator */
 static void * copy_cstr(int o)
 {
     void * p;
     h_alloc_arm(0);
     if (o < 4) {
         const char * z = cstl_string_str(&ns[o - 2]);
-        size_t n = strlen(z);
+        size_t n = cstl_string_size(&ns[o - 2]);
         p = malloc(n + 1);
         memcpy(p, z, n + 1);
     } else {
         const wchar_t * z = cstl_wstring_str(&ws[o - 4]);
-        size_t n = wcslen(z);
+        size_t n = cstl_wstring_size(&ws[o - 4]);
         p = malloc((n + 1) * sizeof(wchar_t));
         memcpy(p, z, (n + 1) * sizeof(wchar_t));
     }
